@@ -150,6 +150,19 @@ def c17_scenarios(seed, quick, cases, call, scn):
         step = {"do": "ssend", "h": "s%d" % i, "mods": [[{"d": 1}, 10]] if "rsecs" in c else []}
         step.update(c)
         mids += [{"do": "sopen", "h": "s%d" % i, "c": 10 + i, "sub": S1, "max": 1}, {"do": "settle"}, step, {"do": "swait", "h": "s%d" % i}]
+    # malformed control messages that ALSO carry well-formed work: rejected as a whole, nothing of
+    # them is carried out (deliveries 1 and 2 of S1 are outstanding since the setup)
+    ctrl2 = [dict(acks=[{"d": 1}], mods=[[{"d": 2}, 10]], rsecs=[10, 20]),     # lengths differ
+             dict(acks=[{"d": 1}], mods=[[{"d": 2}, 10]], rsecs=[]),
+             dict(acks=[{"d": 1}], mods=[[{"lit": "zz"}, 10]]),                  # bad id among the modifications
+             dict(acks=[{"d": 1}], mods=[[{"d": 2}, -5]]),                        # negative seconds
+             dict(acks=[{"d": 1}, {"lit": "abc"}], mods=[[{"d": 2}, 10]]),       # bad id among the acks
+             dict(acks=[{"d": 1}], rsub=S1), dict(acks=[{"d": 1}], rmax=5), dict(mods=[[{"d": 2}, 0]], rmaxb=5)]
+    for i, c in enumerate(ctrl2):
+        step = {"do": "ssend", "h": "t%d" % i}
+        step.update(c)
+        mids += [{"do": "sopen", "h": "t%d" % i, "c": 40 + i, "sub": S1, "max": 1}, {"do": "settle"}, step, {"do": "swait", "h": "t%d" % i},
+                 call(4, op="Pull", sub=S1, max=10, ri=True)]
     for mx in (65536, 70000, 2147483647, -1):
         mids += [{"do": "sopen", "h": "m%d" % abs(mx), "c": 30, "sub": S1, "max": mx}, {"do": "swait", "h": "m%d" % abs(mx)}]
     add("c17-stream-ctrl", mids)
